@@ -275,3 +275,31 @@ def conversion_impl(n):
 
 def call_args(n):
     return ([n["recv"]] if n.get("k") == "mcall" else []) + list(n.get("args", []))
+
+
+def for_loops(root):
+    """desugared `for pat in iter { body }` loops: dicts(iter, pat, body, node, loop)"""
+    out = []
+    for n in walk(root):
+        if n.get("k") != "match" or n.get("src") != "for":
+            continue
+        sc = strip_block(n["scrut"])
+        if sc.get("callee") != "core::iter::traits::collect::IntoIterator::into_iter":
+            continue
+        it = sc["args"][0] if sc.get("args") else sc
+        pat = body = loop = None
+        for x in walk(n["arms"][0]["body"]) if n.get("arms") else []:
+            if x.get("k") == "loop" and loop is None:
+                loop = x
+            if x.get("k") == "match" and x.get("src") == "for" and strip_block(x["scrut"]).get("callee") == "core::iter::traits::iterator::Iterator::next":
+                for a in x["arms"]:
+                    if pat_ctor(a["pat"]) == "core::option::Option::Some":
+                        p = a["pat"]
+                        if p.get("k") == "struct" and p.get("fields"):
+                            pat = p["fields"][0]["pat"]
+                        elif p.get("pats"):
+                            pat = p["pats"][0]
+                        body = a["body"]
+                break
+        out.append({"iter": it, "pat": pat, "body": body, "node": n, "loop": loop})
+    return out
